@@ -63,13 +63,28 @@ def strategy(tier):
                 ops.append(['bind', i, list(tgt)])
             else:
                 ops.append(['detach', i, draw(st.integers(0, 5))])
-        return {'specs': specs, 'ops': ops, 'share': draw(st.floats(0, 1)) < 0.3}
+        # nouid: anonymous events with one delay value, so that distinct events can be equal
+        return {'specs': specs, 'ops': ops, 'share': draw(st.floats(0, 1)) < 0.3,
+                'nouid': draw(st.integers(0, 3)) == 0}
     return cases()
 
 
 def oracle(case):
     from ..cli import sha
     from sismic.model import Event, InternalEvent
+    if case.get('nouid'):
+        import copy
+        case = copy.deepcopy(case)
+        for sp in case['specs']:
+            for o in sp['states'] + sp['transitions']:
+                for key in ('sends', 'sends_entry', 'sends_exit'):
+                    for s_ in o.get(key) or []:
+                        if s_.get('kind', 'send') == 'send':
+                            s_['nouid'] = True
+                            if s_.get('delay') is not None:
+                                s_['delay'] = 1
+        case['ops'] = [[op[0], op[1], op[2], None if op[3] is None else 1, None]
+                       if op[0] == 'q' else op for op in case['ops']]
     specs = [probes.instrument(s) for s in case['specs']]
     n = len(specs)
     if case.get('share') and n >= 2:
@@ -172,7 +187,7 @@ def oracle(case):
                         j = tgt[1]
                         dj = drives[j]
                         dj.qm.push('ext', dj.interp.time + e['data'].get('delay', 0),
-                                   e['data']['uid'], e['name'])
+                                   e['data'].get('uid'), e['name'])
                         labels['events forwarded to interpreters'] = labels.get(
                             'events forwarded to interpreters', 0) + 1
                         if has_cycle():
@@ -214,6 +229,8 @@ def oracle(case):
                 viol.extend(out)
                 break
     labels['cases'] = 1
+    if case.get('nouid'):
+        labels['cases with anonymous (possibly equal) events'] = 1
     keys = [sha(case)] if nontrivial else []
     return {'violations': viol, 'labels': labels, 'keys': keys,
             'sample': {'interpreters': n,
